@@ -182,7 +182,7 @@ def f(x: FLOAT[...], axis: int = 0, keep: int = 1):
 P("if_both", '''
 @script()
 def f(x: FLOAT[...], y: FLOAT[...]):
-    if op.ReduceSum(x) > op.ReduceSum(y):
+    if op.ReduceSum(x, keepdims=0) > op.ReduceSum(y, keepdims=0):
         r = x - y
     else:
         r = y - x
@@ -245,7 +245,7 @@ def f(x: INT64[...], c: BOOL):
 P("if_cond_expr", '''
 @script()
 def f(x: FLOAT[...]):
-    s = op.ReduceSum(x)
+    s = op.ReduceSum(x, keepdims=0)
     if (s > 0.0) & (s < 10.0):
         r = op.Sqrt(op.Abs(x))
     else:
@@ -298,7 +298,7 @@ P("for_if_inside", '''
 def f(x: FLOAT[...], n: INT64):
     acc = x
     for i in range(n):
-        if op.ReduceSum(acc) > 4.0:
+        if op.ReduceSum(acc, keepdims=0) > 4.0:
             acc = acc - 1.0
         else:
             acc = acc * 2.0
@@ -322,7 +322,7 @@ def f(x: FLOAT[...], n: INT64):
     acc = x
     for i in range(n):
         acc = acc + 1.0
-        cond = op.ReduceSum(acc) > 5.0
+        cond = op.ReduceSum(acc, keepdims=0) > 5.0
         if cond:
             break
     return acc
@@ -355,11 +355,11 @@ def f(x: FLOAT[...], n: INT64):
 P("while_simple", '''
 @script()
 def f(x: FLOAT[...]):
-    s = op.ReduceSum(x)
+    s = op.ReduceSum(x, keepdims=0)
     c = s < 10.0
     while c:
         x = x + 1.0
-        s = op.ReduceSum(x)
+        s = op.ReduceSum(x, keepdims=0)
         c = s < 10.0
     return x
 ''', ["x:F:2"])
@@ -380,13 +380,13 @@ def f(x: FLOAT[...], n: INT64):
 P("while_with_if", '''
 @script()
 def f(x: FLOAT[...]):
-    c = op.ReduceSum(x) < 6.0
+    c = op.ReduceSum(x, keepdims=0) < 6.0
     while c:
-        if op.ReduceMax(x) > 2.0:
+        if op.ReduceMax(x, keepdims=0) > 2.0:
             x = x + 2.0
         else:
             x = x + 1.0
-        c = op.ReduceSum(x) < 6.0
+        c = op.ReduceSum(x, keepdims=0) < 6.0
     return x
 ''', ["x:F:2"])
 
@@ -519,7 +519,7 @@ def f(x: FLOAT[...], n: INT64):
 def f(x: FLOAT[...], n: INT64):
     acc = x
     for i in range(n):
-        if op.ReduceSum(acc) > 1.0:
+        if op.ReduceSum(acc, keepdims=0) > 1.0:
             break
         acc = acc + 1.0
     return acc
@@ -527,10 +527,10 @@ def f(x: FLOAT[...], n: INT64):
     ("while_else", '''
 @script()
 def f(x: FLOAT[...]):
-    c = op.ReduceSum(x) < 1.0
+    c = op.ReduceSum(x, keepdims=0) < 1.0
     while c:
         x = x + 1.0
-        c = op.ReduceSum(x) < 1.0
+        c = op.ReduceSum(x, keepdims=0) < 1.0
     else:
         x = x - 1.0
     return x
@@ -633,7 +633,7 @@ class Gen:
             return r.choice([f"({a} > 0.5)", f"({a} <= {self.expr('F', depth + 1)})", f"op.Not({a} < -1.0)"])
         if ty == "B":  # scalar bool
             b = self.pick("B")
-            opts = [f"(op.ReduceSum({self.expr('F', 1)}) > {r.choice(['0.0', '1.5', '4.0'])})"]
+            opts = [f"(op.ReduceSum({self.expr('F', 1)}, keepdims=0) > {r.choice(['0.0', '1.5', '4.0'])})"]
             if b:
                 opts += [b, f"op.Not({b})"]
             return r.choice(opts)
@@ -731,10 +731,10 @@ class Gen:
         tgt = self.r.choice(carried)
         c = self.fresh("c")
         thr = self.r.choice(["3.0", "6.0"])
-        self.lines.append(" " * indent + f"{c} = op.ReduceSum({tgt}) < {thr}")
+        self.lines.append(" " * indent + f"{c} = op.ReduceSum({tgt}, keepdims=0) < {thr}")
         self.lines.append(" " * indent + f"while {c}:")
         self.lines.append(" " * (indent + 4) + f"{tgt} = op.Abs({tgt}) + {self.r.choice(['1.0', '2.0'])}")
-        self.lines.append(" " * (indent + 4) + f"{c} = op.ReduceSum({tgt}) < {thr}")
+        self.lines.append(" " * (indent + 4) + f"{c} = op.ReduceSum({tgt}, keepdims=0) < {thr}")
 
     def program(self, idx) -> Program:
         r = self.r
